@@ -1,6 +1,7 @@
 package codec
 
 import (
+	"encoding/json"
 	"fmt"
 	"time"
 
@@ -398,4 +399,90 @@ func encodingUnmarshal(target *fix.Message, wire []byte, strict bool) error {
 		return encoding.Unmarshal(target, wire)
 	}
 	return encoding.DefaultUnmarshaller{Strict: false, Validator: encoding.DefaultValidator{}}.Unmarshal(target, wire)
+}
+
+// leafRefs collects pointers to the populated leaves of a tree together with the real KeyValue objects.
+func leafPairs(ns []Node, items []fix.Item, out *[]struct {
+	n  *Node
+	kv *fix.KeyValue
+}) {
+	for i := range ns {
+		if i >= len(items) {
+			return
+		}
+		switch ns[i].K {
+		case "kv":
+			if kv, ok := items[i].(*fix.KeyValue); ok && ns[i].Pop {
+				*out = append(*out, struct {
+					n  *Node
+					kv *fix.KeyValue
+				}{&ns[i], kv})
+			}
+		case "grp":
+			if g, ok := items[i].(*fix.Group); ok {
+				for e := range ns[i].Entries {
+					if e < len(g.Entries()) {
+						leafPairs(ns[i].Entries[e], g.Entries()[e], out)
+					}
+				}
+			}
+		case "cmp":
+			if c, ok := items[i].(*fix.Component); ok {
+				leafPairs(ns[i].Items, c.Items(), out)
+			}
+		}
+	}
+}
+
+// RunReuse: the application serializes a message, changes one populated value in place (a setter on the same
+// object) and serializes again.  Both byte strings are recorded AFTER the second call, each with the tree it was
+// produced from: the first one must still be the serialization of the first tree.
+func RunReuse(c *Case, pick int, newTxt func(ty string) []byte) ([]*CaseObs, error) {
+	c.M.Norm()
+	msg, err := Build(&c.M, false)
+	if err != nil {
+		return nil, err
+	}
+	w1, err := msg.ToBytes()
+	if err != nil {
+		return nil, nil
+	}
+	tree1 := deepCopyMsg(&c.M)
+	var pairs []struct {
+		n  *Node
+		kv *fix.KeyValue
+	}
+	leafPairs(c.M.Header, msg.Header().Items(), &pairs)
+	leafPairs(c.M.Body, msg.Body(), &pairs)
+	if len(pairs) == 0 {
+		return nil, nil
+	}
+	p := pairs[pick%len(pairs)]
+	txt := newTxt(p.n.Ty)
+	tv, err := typed(p.n.Ty, txt)
+	if err != nil {
+		return nil, err
+	}
+	if err := p.kv.Value.Set(tv); err != nil {
+		return nil, err
+	}
+	p.n.Txt = ToB(txt)
+	w2, err := msg.ToBytes()
+	if err != nil {
+		return nil, nil
+	}
+	mk := func(id string, m *Msg, w []byte) *CaseObs {
+		o := &CaseObs{K: "case", ID: id, M: *m, Target: 0, SameTemplate: true, SerOk: true, Wire: ToB(w), Lookups: []LookupObs{}}
+		o.Parse, o.Nonstrict = emptyParse(m), emptyParse(m)
+		return o
+	}
+	return []*CaseObs{mk(c.ID+"/first-bytes-after-second-call", tree1, w1), mk(c.ID+"/second", &c.M, w2)}, nil
+}
+
+func deepCopyMsg(m *Msg) *Msg {
+	b, _ := json.Marshal(m)
+	var out Msg
+	_ = json.Unmarshal(b, &out)
+	out.Norm()
+	return &out
 }
